@@ -587,3 +587,4 @@ MANIFEST = {
     "ref": "DESIGN.md §4 C15",
 }
 MANIFEST["text"] += " Dimensionless reduction: scaled (percent, ppm, ...) and logarithmic (decibel, decade, octave, neper) single-unit quantities reduce, returning and in place, to the number .to('') gives."
+MANIFEST["text"] += ' to_compact / ito_compact return dimensionless inputs unchanged also when they carry unit names that cancel (percent, inch/meter, mm/km): 7 expressions x 6 magnitudes.'
